@@ -29,6 +29,7 @@ structure LogOK (T : List Tx) (cs : List CTx) (c : Nat) : Prop where
   props : ∀ q, q ∈ (logRuns (scan cs).ckpt cs).flatMap (·.props) ↔ q ∈ allProps T
   nosegs : (scan cs).segs = []
   noroot : (scan cs).proot = 0
+  ckptle : (scan cs).ckpt ≤ (scan cs).maxTxid
 
 /-- the node table on disk is a prefix of the node list that covers everything the log no longer
     replays (`c` nodes) -/
